@@ -25,7 +25,7 @@ def measure_cell(cell, seed):
     def g(n):
         if cell["sec"] == "gg":
             return R.ad_entry(cell["v"], "S", cell["k"], 0, cell["nf"], cell["fl"], 0, complex(n, 0.0), 1, 1)
-        return R.ad_entry(cell["v"], cell["sec"], cell["k"], 0, cell["nf"], cell["fl"], 0, complex(n, 0.0))
+        return R.ad_entry(cell["v"], cell["sec"], cell["k"], 0, cell["nf"], cell["fl"], cell.get("var", 0), complex(n, 0.0))
 
     slope = (g(n2) - g(n1)).real / math.log(n2 / n1)
     unit = 1e4 * cell["dd"]
